@@ -575,11 +575,26 @@ class Executor:
         if isinstance(op, ast.Sub):
             return self.wrap_num('real' if real else 'int', ta - tb)
         if isinstance(op, ast.Mult):
+            if real and not self.cfg.get('exact_arith'):
+                sa, sb = z3.simplify(ta), z3.simplify(tb)
+                if not (z3.is_rational_value(sa) or z3.is_rational_value(
+                        sb)):
+                    # product of two symbolic reals: uninterpreted (the
+                    # guard/field obligations compare identical terms; the
+                    # exact semantics is only used by the algebra logic)
+                    f = z3.Function('fmul', z3.RealSort(), z3.RealSort(),
+                                    z3.RealSort())
+                    return R(f(ta, tb))
             return self.wrap_num('real' if real else 'int', ta * tb)
         if isinstance(op, ast.Div):
             if not real:
                 ta, tb = z3.ToReal(ta), z3.ToReal(tb)
             self.div_check(st, tb, node, real=True)
+            if not self.cfg.get('exact_arith') and not z3.is_rational_value(
+                    z3.simplify(tb)):
+                f = z3.Function('fdiv', z3.RealSort(), z3.RealSort(),
+                                z3.RealSort())
+                return R(f(ta, tb))
             return R(ta / tb)
         if isinstance(op, ast.FloorDiv):
             self.div_check(st, tb, node)
